@@ -8,7 +8,7 @@
 // destruction of the FINAL owner must request stop on THAT stop state and join THAT thread:
 //   * the thread function observes stop_possible() == true on its token when it starts,
 //   * it sees stop_requested() after the final owner's destructor has begun, and the destructor returns
-//     (watchdog 4 s; on expiry the function is released through a give-up flag so that the run continues),
+//     (watchdog 10 s; on expiry the function is released through a give-up flag so that the run continues),
 //   * the destructor does not return before the function finished,
 //   * nothing requests stop EARLIER: destroying a moved-from handle, or the other handle of a swap, must
 //     not stop this thread (checked at deterministic points: token of the live owner right before it dies;
@@ -383,7 +383,7 @@ static void all_cases()
         while (!actor_done.load())
         {
             pika::this_thread::yield();
-            if (clk::now() - t0 > 4s)
+            if (clk::now() - t0 > 10s)
             {
                 hung = true;
                 // release the thread functions so that the run can continue
@@ -393,7 +393,7 @@ static void all_cases()
                     r->cv.notify_all();
                 }
                 auto t1 = clk::now();
-                while (!actor_done.load() && clk::now() - t1 < 10s) pika::this_thread::yield();
+                while (!actor_done.load() && clk::now() - t1 < 20s) pika::this_thread::yield();
                 break;
             }
         }
@@ -411,8 +411,8 @@ static void all_cases()
                 r1->early.load(), r1->fin_at_ret.load(), res->second_stopped_early);
         std::printf(" api=%s\n", res->api.bad.empty() ? "ok" : res->api.bad.c_str());
         std::fflush(stdout);
-        // every destructor that does not return costs the 4 s watchdog: three such cases are enough
-        if (hung && ++nhung >= 3) { std::printf("NOTE JM stopped after %d cases whose destructor did not return\n", nhung); std::fflush(stdout); break; }
+        // every destructor that does not return costs the 10 s watchdog: two such cases are enough
+        if (hung && ++nhung >= 2) { std::printf("NOTE JM stopped after %d cases whose destructor did not return\n", nhung); std::fflush(stdout); break; }
     }
 }
 
@@ -431,7 +431,7 @@ int main(int argc, char** argv)
             long b = g_beat.load();
             if (b == last) ++idle; else idle = 0;
             last = b;
-            if (idle >= 40) { std::printf("OUT JM %d dtor_returned=0 released=0 hang=1\n", g_case.load()); std::fflush(stdout); _exit(0); }
+            if (idle >= 60) { std::printf("OUT JM %d dtor_returned=0 released=0 hang=1\n", g_case.load()); std::fflush(stdout); _exit(0); }
         }
     }).detach();
     std::string wa = "--pika:threads=" + std::to_string(g_workers);
